@@ -729,6 +729,7 @@ func Run(c *lib.Ctx) {
 	}
 	fails = append(fails, mutatedInPlace(c, r.Fork())...)
 	fails = append(fails, rewrittenInPlace(c, r.Fork())...)
+	fails = append(fails, nestedOfDocuments(c, r.Fork())...)
 	ms, err := c.RunModel("c14", sc)
 	if err != nil {
 		ms = append(ms, lib.Mismatch{Op: "(model driver failed)", Model: err.Error()})
@@ -917,6 +918,109 @@ func rewrittenInPlace(c *lib.Ctx, r *lib.RNG) (fails []lib.OracleFail) {
 			}
 		}
 		c.Hit("oracle-rewritten-in-place")
+	}
+	return fails
+}
+
+// nestedOfDocuments: a document built by types.Marshal from Go data (objects nested in objects, in lists, three levels)
+// or read by a map's / slice's UnmarshalJSON is an immutable value ALL THE WAY DOWN: Set / Delete / Clear on a map
+// found inside it (Get, Lookup) return new maps and leave the document as it was. After every such call the document
+// must still obey the laws against a twin built before (Equal both ways, Compare 0, equal hashes) and read the same.
+// The pools above build their maps with NewMap, which never yields a mutable map inside an immutable one. (Seeded
+// change c14l: a fast path of Marshal returned objects nested directly in objects as the unfrozen builder; writing
+// through them changed the enclosing document under its memoised hash.)
+func nestedOfDocuments(c *lib.Ctx, r *lib.RNG) (fails []lib.OracleFail) {
+	mkGo := func() map[string]any {
+		return map[string]any{
+			"name": "doc",
+			"meta": map[string]any{"kind": "a", "labels": map[string]any{"x": "1", "y": "2"}, "n": float64(r.Intn(5))},
+			"list": []any{map[string]any{"k": "v", "in": map[string]any{"z": true}}, "s"},
+			"deep": map[string]any{"l1": map[string]any{"l2": map[string]any{"l3": "end"}}},
+		}
+	}
+	paths := [][]string{{"meta"}, {"meta", "labels"}, {"deep"}, {"deep", "l1"}, {"deep", "l1", "l2"}}
+	for round := 0; round < c.Scale(40, 400) && len(fails) < 3; round++ {
+		var doc, twin types.Value
+		var how string
+		g := mkGo()
+		switch r.Intn(3) {
+		case 0:
+			doc, _ = types.Marshal(g)
+			twin, _ = types.Marshal(g)
+			how = "types.Marshal(map[string]any{…})"
+		case 1:
+			text, _ := json.Marshal(g)
+			m1, m2 := types.NewMap(), types.NewMap()
+			_ = json.Unmarshal(text, m1)
+			_ = json.Unmarshal(text, m2)
+			doc, twin, how = m1, m2, "json.Unmarshal(text, types.NewMap())"
+		default:
+			text, _ := json.Marshal([]any{g, g["meta"]})
+			s1, s2 := types.NewSlice(), types.NewSlice()
+			_ = s1.UnmarshalJSON(text)
+			_ = s2.UnmarshalJSON(text)
+			doc, twin, how = s1, s2, "Slice.UnmarshalJSON(text)"
+		}
+		if doc == nil || twin == nil {
+			continue
+		}
+		_ = doc.Hash() // observe first
+		before := lib.EncodeVal(doc)
+		var trace []string
+		for step := 0; step < r.Range(1, 4) && len(fails) < 3; step++ {
+			path := lib.Pick(r, paths)
+			var cur types.Value = doc
+			if sl, ok := cur.(types.Slice); ok {
+				cur = sl.Get(0)
+			}
+			for _, k := range path {
+				m, ok := cur.(types.Map)
+				if !ok {
+					cur = nil
+					break
+				}
+				cur = m.Get(types.NewString(k))
+			}
+			m, ok := cur.(types.Map)
+			if !ok {
+				continue
+			}
+			if p := lib.Safe(func() {
+				switch r.Intn(3) {
+				case 0:
+					_ = m.Set(types.NewString("kind"), types.NewString("changed"))
+					trace = append(trace, "Get("+strings.Join(path, ".")+").Set(kind, changed)")
+				case 1:
+					for k := range m.Range() {
+						_ = m.Delete(k)
+						trace = append(trace, "Get("+strings.Join(path, ".")+").Delete("+lib.EncodeVal(k)+")")
+						break
+					}
+				default:
+					_ = m.Clear()
+					trace = append(trace, "Get("+strings.Join(path, ".")+").Clear()")
+				}
+			}); p != "" {
+				fails = append(fails, lib.OracleFail{Class: "panic", What: "writing to a map found inside a document panicked: " + p, Replay: how + "\n" + strings.Join(trace, "\n")})
+				return
+			}
+			c.Evaluations++
+			bad := func(what string) {
+				c.Hit("oracle-fail:stability")
+				fails = append(fails, lib.OracleFail{Class: "stability", What: fmt.Sprintf("a document built by %s changed although only maps FOUND INSIDE it were asked for a changed copy: %s", how, what), Replay: how + "\n" + strings.Join(trace, "\n")})
+			}
+			switch {
+			case lib.EncodeVal(doc) != before:
+				bad("it reads " + lib.EncodeVal(doc) + ", it was " + before)
+			case !types.Equal(doc, twin) || !types.Equal(twin, doc):
+				bad(fmt.Sprintf("Equal(doc,twin)=%v Equal(twin,doc)=%v", types.Equal(doc, twin), types.Equal(twin, doc)))
+			case types.Compare(doc, twin) != 0 || types.Compare(twin, doc) != 0:
+				bad(fmt.Sprintf("Compare = %d / %d", types.Compare(doc, twin), types.Compare(twin, doc)))
+			case types.HashOf(doc) != types.HashOf(twin):
+				bad("hashes differ from the twin's")
+			}
+		}
+		c.Hit("oracle-nested-of-documents")
 	}
 	return fails
 }
